@@ -1,5 +1,289 @@
+//! C05 — extension additions are forward/backward compatible across schema versions.
+//! Space: every pair (v1 < v2) of every version chain (vbase::zoo_c05) x every value of either
+//! version (all presence patterns of additions) x both directions, with a sentinel value written
+//! after the message in the same writer.
+
 use crate::*;
-pub fn run(_args: &Args) -> ! {
-    machinery_error("C05 not built yet")
+use vcore::zoo_c05::{chains, Chain};
+
+#[derive(Debug)]
+enum Conv {
+    Ok(Value),
+    /// the receiving version does not know this CHOICE alternative / ENUMERATED item
+    Unknown(String),
 }
-pub fn replay(_ctx: &Ctx, _c: &J, _agg: &mut Agg) {}
+
+/// Value of `from` type seen through the `to` type: additions unknown to `to` are dropped (project),
+/// additions only `to` knows are absent / at their DEFAULT (embed).
+fn convert(mf: &Module, tf: &Ty, mt: &Module, tt: &Ty, v: &Value) -> Conv {
+    let (tf, tt) = (mf.resolve(tf), mt.resolve(tt));
+    match (tf, tt, v) {
+        (Ty::Seq { comps: cf, .. }, Ty::Seq { comps: ct, .. }, Value::Seq(vals)) => {
+            let mut out = vec![];
+            for (i, c) in ct.iter().enumerate() {
+                if i < cf.len() {
+                    match &vals[i] {
+                        None => out.push(None),
+                        Some(x) => match convert(mf, &cf[i].ty, mt, &c.ty, x) {
+                            Conv::Ok(y) => out.push(Some(y)),
+                            u => return u,
+                        },
+                    }
+                } else {
+                    match &c.presence {
+                        Presence::Default(l) => out.push(Some(lit_value(mt, &c.ty, l))),
+                        _ => out.push(None),
+                    }
+                }
+            }
+            Conv::Ok(Value::Seq(out))
+        }
+        (Ty::Choice { alts: af, .. }, Ty::Choice { alts: at, .. }, Value::Choice(i, inner)) => {
+            if *i >= at.len() {
+                return Conv::Unknown(format!("alternative {} is unknown to the receiver", af[*i].name));
+            }
+            match convert(mf, &af[*i].ty, mt, &at[*i].ty, inner) {
+                Conv::Ok(y) => Conv::Ok(Value::Choice(*i, Box::new(y))),
+                u => u,
+            }
+        }
+        (Ty::Enum { .. }, Ty::Enum { root, ext }, Value::Enum(i)) => {
+            let n = root.len() + ext.as_ref().map_or(0, |e| e.len());
+            if *i >= n { Conv::Unknown(format!("enumeration item #{i} is unknown to the receiver")) } else { Conv::Ok(v.clone()) }
+        }
+        (Ty::SeqOf { inner: inf, .. }, Ty::SeqOf { inner: int, .. }, Value::List(l)) => {
+            let mut out = vec![];
+            for x in l {
+                match convert(mf, inf, mt, int, x) {
+                    Conv::Ok(y) => out.push(y),
+                    u => return u,
+                }
+            }
+            Conv::Ok(Value::List(out))
+        }
+        _ => Conv::Ok(v.clone()),
+    }
+}
+
+/// Does the value carry a PRESENT extension addition that the receiving type does not know, in a
+/// SEQUENCE/SET that is not itself inside an open type? (recorded finding: such additions are not
+/// skipped, the reader stops before them)
+fn has_unskipped_unknown_addition(mf: &Module, tf: &Ty, mt: &Module, tt: &Ty, v: &Value, in_open_type: bool) -> bool {
+    let (tf, tt) = (mf.resolve(tf), mt.resolve(tt));
+    match (tf, tt, v) {
+        (Ty::Seq { comps: cf, ext_after: ef, .. }, Ty::Seq { comps: ct, .. }, Value::Seq(vals)) => {
+            let nroot = ef.unwrap_or(cf.len());
+            for (i, c) in cf.iter().enumerate() {
+                if let Some(x) = &vals[i] {
+                    if i >= ct.len() {
+                        let encoded = match &c.presence {
+                            Presence::Default(l) => lit_value(mf, &c.ty, l).normalize() != x.normalize(),
+                            _ => true,
+                        };
+                        if encoded && !in_open_type {
+                            return true;
+                        }
+                    } else if has_unskipped_unknown_addition(mf, &c.ty, mt, &ct[i].ty, x, in_open_type || i >= nroot) {
+                        return true;
+                    }
+                }
+            }
+            false
+        }
+        (Ty::Choice { alts: af, ext_after: ef }, Ty::Choice { alts: at, .. }, Value::Choice(i, inner)) => {
+            *i < at.len() && has_unskipped_unknown_addition(mf, &af[*i].ty, mt, &at[*i].ty, inner, in_open_type || *i >= ef.unwrap_or(af.len()))
+        }
+        _ => false,
+    }
+}
+
+const SENTINEL: i128 = 0xA5;
+
+struct Side<'a> {
+    module: &'a Module,
+    msg: &'a Entry,
+    sent: &'a Entry,
+    version: usize,
+}
+
+fn side<'a>(ctx: &'a Ctx, c: &Chain, v: usize) -> Option<Side<'a>> {
+    let id = format!("c05{}{v}", c.name);
+    let msg = ctx.find(&id, "Tmsg")?;
+    let sent = ctx.find(&id, "Tsent")?;
+    Some(Side { module: ctx.module_of(msg), msg, sent, version: v })
+}
+
+/// one (sender version, receiver version, value) case
+fn check(chain: &Chain, from: &Side, to: &Side, v: &Value, agg: &mut Agg) {
+    let tf = &from.module.find("Tmsg").unwrap().ty;
+    let tt = &to.module.find("Tmsg").unwrap().ty;
+    if !representable(from.msg.ops, v) {
+        agg.count("skipped_unrepresentable_in_generated_type", 1);
+        return;
+    }
+    let dir = if from.version < to.version { "old-to-new" } else if from.version > to.version { "new-to-old" } else { "same-version" };
+    let case = || json!({"kind": "c05", "chain": chain.name, "from": from.version, "to": to.version, "value": v.to_json()});
+    // sender: message, then the sentinel, in ONE writer
+    let written = catch(|| {
+        let mut w = UperWriter::default();
+        from.msg.ops.uper_write(&mut w, v)?;
+        let msg_bits = w.bit_len();
+        from.sent.ops.uper_write(&mut w, &Value::Int(SENTINEL))?;
+        Ok::<_, zoo::PerErr>((unpack_n(w.byte_content(), w.bit_len()), msg_bits))
+    });
+    let (bits, msg_bits) = match written {
+        Err(p) => return agg.fail(format!("c05.{dir}.encode-panic"), case(), "Ok or Err".into(), format!("panic: {p}")),
+        Ok(Err((k, _))) => {
+            // the documented refusal (first addition absent, later one present) is C03's business
+            agg.count(&format!("sender_refused_{k}"), 1);
+            return;
+        }
+        Ok(Ok(x)) => x,
+    };
+    agg.count("evaluations", 1);
+    agg.count("nontrivial", 1);
+    if agg.samples.len() < 2 && from.version != to.version {
+        agg.samples.push(json!({"chain": chain.name, "sender_version": from.version, "receiver_version": to.version, "value": v.short(), "message_bits": msg_bits}));
+    }
+    let expected = convert(from.module, tf, to.module, tt, v);
+    let known_unskipped = has_unskipped_unknown_addition(from.module, tf, to.module, tt, v, false);
+    let bytes = pack(&bits);
+    let got = catch(|| {
+        let mut r = UperReader::from((&bytes[..], bits.len()));
+        let m = to.msg.ops.uper_read(&mut r);
+        let after_msg = bits.len() - r.bits_remaining();
+        let m = match m {
+            Ok(m) => m,
+            Err(e) => return (Err(e), after_msg, None, r.bits_remaining()),
+        };
+        let s = to.sent.ops.uper_read(&mut r);
+        (Ok(m), after_msg, Some(s), r.bits_remaining())
+    });
+    let (msg, after_msg, sentinel, remaining) = match got {
+        Err(p) => return agg.fail(format!("c05.{dir}.decode-panic"), case(), "Ok or Err".into(), format!("panic: {p}")),
+        Ok(x) => x,
+    };
+    let kf = |cls: &str| if known_unskipped { format!("c05.known.unknown-additions-not-skipped.{cls}") } else { format!("c05.{dir}.{cls}") };
+    match (expected, msg) {
+        (Conv::Unknown(_), Err(_)) => agg.count("unknown_alternative_reported_as_error", 1),
+        (Conv::Unknown(why), Ok(m)) => {
+            // an unknown CHOICE/ENUMERATED extension value may be an error but never a wrong value
+            agg.fail(format!("c05.{dir}.unknown-extension-value-decoded-as-a-value"), case(), format!("Err ({why})"), format!("Ok({})", m.short()));
+        }
+        (Conv::Ok(exp), Err((_, detail))) => agg.fail(kf("decode-err"), case(), exp.short(), format!("Err({detail}) from {}", show_bits(&bits[..msg_bits]))),
+        (Conv::Ok(exp), Ok(m)) => {
+            if m != exp.normalize() {
+                return agg.fail(kf("wrong-value"), case(), exp.short(), format!("{} from {}", m.short(), show_bits(&bits[..msg_bits])));
+            }
+            // the reader must end exactly at the end of the message so that what follows decodes
+            let sent_ok = matches!(&sentinel, Some(Ok(Value::Int(x))) if *x == SENTINEL) && remaining == 0 && after_msg == msg_bits;
+            if !sent_ok {
+                if known_unskipped {
+                    // recorded finding: the root content is right (checked above), the cursor is not
+                    agg.fail("c05.known.unknown-additions-not-skipped".into(), case(), format!("reader ends after {msg_bits} bits, sentinel 165, 0 bits remaining"), format!("reader ends after {after_msg} bits, sentinel {:?}, {remaining} bits remaining", sentinel.map(|s| s.map(|v| v.short()))));
+                } else {
+                    agg.fail(format!("c05.{dir}.reader-does-not-end-at-end-of-message"), case(), format!("reader ends after {msg_bits} bits, sentinel 165, 0 bits remaining"), format!("reader ends after {after_msg} bits, sentinel {:?}, {remaining} bits remaining", sentinel.map(|s| s.map(|v| v.short()))));
+                }
+            }
+        }
+    }
+}
+
+fn chain_values(s: &Side, thorough: bool) -> Vec<Value> {
+    let b = Budget { max_size: 400, nested_leaf: 2, product_cap: if thorough { 2048 } else { 256 }, ext_out: false, large_sizes: &[] };
+    values::values(s.module, &s.module.find("Tmsg").unwrap().ty, &b)
+}
+
+fn pairs(ctx: &Ctx) -> Vec<(Chain, usize, usize)> {
+    let mut out = vec![];
+    for c in chains() {
+        let maxv = if ctx.thorough { c.additions } else { c.quick_versions };
+        for a in 0..=maxv {
+            for b in 0..=maxv {
+                // controls (same version) only for the first and last version
+                if a == b && a != 0 && a != maxv {
+                    continue;
+                }
+                out.push((c.clone(), a, b));
+            }
+        }
+    }
+    out
+}
+
+pub fn run(args: &Args) -> ! {
+    let ctx = Ctx::new(args.tier);
+    let ps = pairs(&ctx);
+    if let Some(cctx) = vcore::sweep::child_ctx() {
+        vcore::sweep::limit_address_space(8 << 30);
+        let agg = std::cell::RefCell::new(Agg::new());
+        vcore::sweep::child_loop(
+            &cctx,
+            ps.len(),
+            2,
+            |idx| {
+                let (c, a, b) = &ps[idx];
+                let mut ag = agg.borrow_mut();
+                let (from, to) = match (side(&ctx, c, *a), side(&ctx, c, *b)) {
+                    (Some(f), Some(t)) => (f, t),
+                    _ => {
+                        ag.count("pairs_missing_in_zoo", 1);
+                        return;
+                    }
+                };
+                ag.count("version_pairs", 1);
+                for v in chain_values(&from, ctx.thorough) {
+                    check(c, &from, &to, &v, &mut ag);
+                }
+            },
+            || {
+                let mut a = agg.borrow_mut();
+                let v = a.to_json();
+                a.clear();
+                v
+            },
+        );
+    }
+    let mut report = Report::new(args, "model_checking");
+    let res = vcore::sweep::sweep("C05", vcore::shard::default_shards(), std::time::Duration::from_secs(120), &[]);
+    let mut agg = Agg::new();
+    for c in &res.chunks {
+        agg.merge_json(c);
+    }
+    for cr in &res.crashes {
+        let (c, a, b) = &ps[cr.index];
+        agg.fail(format!("c05.process-{}", cr.what.split('(').next().unwrap_or("abort")), json!({"kind":"c05-pair","chain":c.name,"from":a,"to":b}), "every case returns".into(), format!("worker died: {}", cr.what));
+    }
+    for (k, (n, f)) in std::mem::take(&mut agg.fails) {
+        report.merge(k, n, f);
+    }
+    let evals = agg.counters.get("evaluations").copied().unwrap_or(0);
+    if evals == 0 || agg.counters.get("pairs_missing_in_zoo").copied().unwrap_or(0) > 0 {
+        machinery_error("C05: no case evaluated or version modules missing from the compiled zoo");
+    }
+    let mut cov = Map::new();
+    cov.insert("exhaustive".into(), json!(true));
+    cov.insert("evaluations".into(), json!(evals));
+    cov.insert("distinct_nontrivial".into(), json!(evals));
+    cov.insert("states".into(), json!(agg.counters.get("version_pairs").copied().unwrap_or(0)));
+    cov.insert("transitions".into(), json!(evals));
+    cov.insert("traces_validated_against_impl".into(), json!(evals));
+    cov.insert("counters".into(), json!(agg.counters));
+    cov.insert("chains".into(), json!(chains().iter().map(|c| json!({"chain": c.name, "kind": format!("{:?}", c.kind), "versions": if ctx.thorough { c.additions } else { c.quick_versions } + 1})).collect::<Vec<_>>()));
+    cov.insert("rule".into(), json!("every ordered pair (sender version, receiver version) of every chain x every value of the sender version (all presence patterns of additions x covering diagonal of contents): message + sentinel INTEGER(0..255)=0xA5 written into one real writer, read with the receiver's generated type: value == project/embed(sent value) on abstract values, unknown CHOICE/ENUMERATED values only as Err, reader ends exactly at the message end (sentinel decodes, 0 bits remaining). states = version pairs, transitions = messages exchanged. every (pair, value) is distinct and non-trivial"));
+    cov.insert("samples".into(), J::Array(agg.samples.clone()));
+    report.finish(cov, vec!["project/embed are computed on the harness' abstract values (vcore), never by the subject".into(), "the sender's documented refusal (ExtensionFieldsInconsistent) is counted, not judged (C03)".into()])
+}
+
+pub fn replay(ctx: &Ctx, c: &J, agg: &mut Agg) {
+    let name = c["chain"].as_str().unwrap_or("");
+    let chain = match chains().into_iter().find(|x| x.name == name) {
+        Some(x) => x,
+        None => return,
+    };
+    let (a, b) = (c["from"].as_u64().unwrap() as usize, c["to"].as_u64().unwrap() as usize);
+    if let (Some(f), Some(t)) = (side(ctx, &chain, a), side(ctx, &chain, b)) {
+        let v = Value::from_json(&c["value"]);
+        check(&chain, &f, &t, &v, agg);
+    }
+}
